@@ -101,7 +101,8 @@ CLAIMS = {
              "errors, NEXT?/COUNt? queries and commands into messages. On the real code every operation sequence of depth D on StaticErrorQueue<K> "
              "directly (count observed after every step, queue drained at the end), seeded sequences incl. K=10, all enumerated histories and seeded "
              "sessions (one buffer, per message, through process) are validated by TraceScpi: NEXT? answers number,\"description\" of the oldest entry "
-             "(0,\"\" when empty), COUNt? the number of entries.",
+             "(0,\"\" when empty), COUNt? the number of entries; number(), Into<&str>, Display and the Response impl of all 59 standard errors "
+             "must agree with the table ScpiErrors.",
         design_ref="DESIGN.md section 4 C09", note=TRUST, technique=TV),
     "C10": dict(
         category="model_checking",
